@@ -93,7 +93,9 @@ func c06Draw(rt *rapid.T) c06Case {
 		if !p.Present {
 			continue
 		}
-		starts := []time.Duration{time.Second, 10 * time.Minute}
+		// -1: the pod status carries no startTime (a kubelet always sets it with the container statuses, other
+		// node agents such as virtual kubelets need not)
+		starts := []time.Duration{time.Second, 10 * time.Minute, -1}
 		if k.MaxSlowStart > 0 {
 			starts = append(starts, k.MaxSlowStart-3*time.Second, k.MaxSlowStart, k.MaxSlowStart+3*time.Second)
 		}
@@ -200,11 +202,18 @@ func runC06Order(k c06Case, perm []int) (vs []mon.V, obs []c06Obs, err error) {
 		if !kp.Present {
 			continue
 		}
-		pod := p.addPod(nodes[i], 'C', PSUnavailable, kp.StartedAgo)
+		age := kp.StartedAgo
+		if age < 0 {
+			age = time.Second
+		}
+		pod := p.addPod(nodes[i], 'C', PSUnavailable, age)
 		podNames[i] = pod.Name
 		c.MutatePod(pod.Namespace, pod.Name, func(x *corev1.Pod) {
-			started := metav1.NewTime(now.Add(-kp.StartedAgo))
+			started := metav1.NewTime(now.Add(-age))
 			x.Status.StartTime = &started
+			if kp.StartedAgo < 0 {
+				x.Status.StartTime = nil
+			}
 			x.Status.ContainerStatuses = nil
 			allRunning := true
 			for j, kc := range kp.Containers {
@@ -438,5 +447,145 @@ func TestC06Verdict(t *testing.T) {
 		}
 		rec.Steps(n)
 		settle(rt, rec, vs, map[string]interface{}{"case": k.String()}, 1+len(k.Steps), "case: "+k.String())
+	})
+}
+
+// TestC06Timeline: model-based check of the restart timeline the canary keeps in its PodRestarting condition
+// ("the first and the latest observed restart"). Canary pods restart, disappear and come back between syncs;
+// the model keeps the newest restart any sync has seen so far.
+func TestC06Timeline(t *testing.T) {
+	rec := evid.New("TestC06Timeline", "C06", "canary on three nodes, auto-fail thresholds out of reach; 3-8 events from {container restart on pod i, pod i removed, pod i re-created, time passes}, one canary sync after each; model: latest = newest restart seen by any sync so far, first = a restart time seen by the first sync that saw one; oracle after every sync: PodRestarting exists iff a restart was seen, lastUpdateTime = latest (never moves back), lastTransitionTime = first (never changes); non-trivial = a pod disappeared after its restart had been recorded; distinct by event list")
+	t.Cleanup(func() {
+		if !t.Failed() {
+			rec.Done()
+		}
+	})
+	rapid.Check(t, func(rt *rapid.T) {
+		c := sim.New(sim.Options{})
+		for i := 0; i < 4; i++ {
+			c.AddNode(fmt.Sprintf("n%d", i), map[string]string{"zone": "a"}, nil)
+		}
+		three := intstr.FromInt(3)
+		yes, no := true, false
+		big := int32(50)
+		cn := &edsv1.ExtendedDaemonSetSpecStrategyCanary{Replicas: &three, ValidationMode: edsv1.ExtendedDaemonSetSpecStrategyCanaryValidationModeManual,
+			AutoPause: &edsv1.ExtendedDaemonSetSpecStrategyCanaryAutoPause{Enabled: &no, MaxRestarts: &big},
+			AutoFail:  &edsv1.ExtendedDaemonSetSpecStrategyCanaryAutoFail{Enabled: &yes, MaxRestarts: &big}}
+		st := edsv1.ExtendedDaemonSetSpecStrategy{Canary: cn, ReconcileFrequency: &metav1.Duration{Duration: 10 * time.Second}}
+		p := prepare(c, "ns1", "foo", st, nil, "AB")
+		e := c.EDS("ns1", "foo")
+		crs := p.RS['B']
+		if e == nil || e.Status.Canary == nil || e.Status.Canary.ReplicaSet != crs || len(e.Status.Canary.Nodes) != 3 {
+			rt.Fatalf("harness: canary not set up: %+v", e)
+		}
+		c.Advance(time.Hour)
+		nodes := append([]string(nil), e.Status.Canary.Nodes...)
+		pods := [3]string{}
+		for i := range nodes {
+			pods[i] = p.addPod(nodes[i], 'B', PSAvailable, time.Minute).Name
+		}
+		var latest, firstMin, firstMax time.Time
+		seen := false
+		var events []string
+		var vs []mon.V
+		removedAfterRecorded := false
+		recordedBy := map[string]bool{} // pods whose restart a sync has recorded
+		sync := func() {
+			c.Advance(11 * time.Second)
+			// what this sync can observe
+			var lo, hi time.Time
+			for _, name := range pods {
+				pod := c.Pod("ns1", name)
+				if pod == nil || pod.DeletionTimestamp != nil {
+					continue
+				}
+				for _, cs := range pod.Status.ContainerStatuses {
+					if cs.RestartCount > 0 && cs.LastTerminationState.Terminated != nil {
+						ft := cs.LastTerminationState.Terminated.FinishedAt.Time
+						if hi.IsZero() || ft.After(hi) {
+							hi = ft
+						}
+						if lo.IsZero() || ft.Before(lo) {
+							lo = ft
+						}
+						recordedBy[name] = true
+					}
+				}
+			}
+			if !hi.IsZero() {
+				if !seen {
+					seen, firstMin, firstMax = true, lo, hi
+				}
+				if hi.After(latest) {
+					latest = hi
+				}
+			}
+			r := c.Reconcile(sim.ActorERS, "ns1", crs)
+			vs = append(vs, mon.Check(r, mon.Of("no-panic"), nil)...)
+			rs := c.ERS("ns1", crs)
+			if rs == nil || r.Err != nil {
+				return
+			}
+			rc := oracle.RSCond(&rs.Status, edsv1.ConditionTypePodRestarting)
+			sec := func(x time.Time) string { return x.UTC().Truncate(time.Second).Format("15:04:05") }
+			switch {
+			case !seen && rc != nil:
+				vs = append(vs, mon.V{Property: "C06", Monitor: "restart-timeline", Sig: "C06/restart-timeline/condition-without-restart", Detail: "a PodRestarting condition exists although no sync has seen a restarted canary pod"})
+			case seen && rc == nil:
+				vs = append(vs, mon.V{Property: "C06", Monitor: "restart-timeline", Sig: "C06/restart-timeline/restart-not-recorded", Detail: "a sync saw a restarted canary pod but the replica set has no PodRestarting condition"})
+			case seen:
+				if sec(rc.LastUpdateTime.Time) != sec(latest) {
+					sig := "latest-differs"
+					if rc.LastUpdateTime.Time.Before(latest.Truncate(time.Second)) {
+						sig = "latest-moved-back-or-missed"
+					}
+					vs = append(vs, mon.V{Property: "C06", Monitor: "restart-timeline", Sig: "C06/restart-timeline/" + sig, Detail: fmt.Sprintf("PodRestarting.lastUpdateTime=%s, the newest restart any sync has observed is %s (events: %s)", sec(rc.LastUpdateTime.Time), sec(latest), strings.Join(events, ", "))})
+				}
+				if ft := rc.LastTransitionTime.Time; ft.Before(firstMin.Truncate(time.Second)) || ft.After(firstMax) {
+					vs = append(vs, mon.V{Property: "C06", Monitor: "restart-timeline", Sig: "C06/restart-timeline/first-changed", Detail: fmt.Sprintf("PodRestarting.lastTransitionTime=%s, the first sync that saw restarts saw them between %s and %s (events: %s)", sec(ft), sec(firstMin), sec(firstMax), strings.Join(events, ", "))})
+				}
+			}
+		}
+		sync()
+		n := rapid.IntRange(3, 8).Draw(rt, "events")
+		for i := 0; i < n && len(vs) == 0; i++ {
+			kind := rapid.SampledFrom([]string{"restart", "restart", "restart", "remove", "remove", "recreate", "wait"}).Draw(rt, fmt.Sprintf("event%d", i))
+			idx := rapid.IntRange(0, 2).Draw(rt, fmt.Sprintf("event%d-pod", i))
+			name := pods[idx]
+			switch kind {
+			case "restart":
+				c.Advance(rapid.SampledFrom([]time.Duration{2 * time.Second, 40 * time.Second, 4 * time.Minute}).Draw(rt, fmt.Sprintf("event%d-after", i)))
+				if c.Pod("ns1", name) != nil {
+					c.Restart("ns1", name, 0, "Error")
+				}
+			case "remove":
+				if c.Pod("ns1", name) != nil {
+					if recordedBy[name] {
+						removedAfterRecorded = true
+					}
+					c.ForceRemovePod("ns1", name)
+				}
+			case "recreate":
+				if c.Pod("ns1", name) == nil {
+					// whatever the canary created meanwhile for that node goes away too: the node gets one fresh healthy pod
+					for _, q := range c.Pods() {
+						if oracle.NodeOf(q) == nodes[idx] && q.Labels[oracle.LabelRSName] == crs {
+							c.ForceRemovePod(q.Namespace, q.Name)
+						}
+					}
+					pods[idx] = p.addPod(nodes[idx], 'B', PSAvailable, time.Second).Name
+				}
+			case "wait":
+				c.Advance(3 * time.Minute)
+			}
+			events = append(events, fmt.Sprintf("%s pod%d", kind, idx))
+			sync()
+		}
+		rec.Case(removedAfterRecorded, evid.FP(strings.Join(events, ",")), fmt.Sprintf("restart-seen=%v", seen))
+		rec.Steps(len(events) + 1)
+		if removedAfterRecorded {
+			rec.Sample(events)
+		}
+		settle(rt, rec, vs, map[string]interface{}{"events": events}, len(events), "events: "+strings.Join(events, ", "))
 	})
 }
